@@ -11,7 +11,8 @@
 (*   rpc     what it reports through ContactRequestReference and the       *)
 (*           GroupMetadataList stream of the account group                 *)
 (*   reply   what the request itself answered                              *)
-(* History variables: kinds = all events appended so far, prev = the views *)
+(* History variables: kinds = all events appended so far, ref = the        *)
+(* reference lifecycle applied to them event by event, prev = the views    *)
 (* reported after the previous step.                                       *)
 (*                                                                         *)
 (* Clauses (C07 and what it implies for the RPC layer):                    *)
@@ -41,8 +42,9 @@ TraceLog == ndJsonDeserialize(IOEnv.VERIF_TRACE)
 
 VARIABLES l,
           kinds,   \* sequence of [k, sub, seed, meta, own]: every event appended in this block
+          ref,     \* reference lifecycle after those events: [cs, cseed, cmeta, cown, sw, seed]
           prev     \* [st, rpc] reported after the previous step (<<>> before the first)
-mvars == <<l, kinds, prev>>
+mvars == <<l, kinds, ref, prev>>
 Ev == TraceLog[l]
 Consume(e) == l <= Len(TraceLog) /\ Ev.ev = e /\ l' = l + 1
 
@@ -78,17 +80,38 @@ RefOwn(K, c) == LET i == Latest(K, LAMBDA j : K[j].sub = c) IN IF i # 0 /\ K[i].
 RefSw(K) == LET i == Latest(K, LAMBDA j : K[j].k \in {"en", "dis"}) IN IF i = 0 THEN "none" ELSE K[i].k
 RefAcctSeed(K) == Latest(K, LAMBDA j : K[j].k = "rs")
 
-\* S + V: the two views after a step, given all events appended so far
-ViewOK(K, e) ==
+\* the same reference, event by event (what every line is compared with; the log-derived formulation above is
+\* evaluated on top of it at the first line of a block and at every restart)
+Apply1(r, e) ==
+  IF e.sub \in DOMAIN r.cs THEN
+       [r EXCEPT !.cs[e.sub] = CStateOf(e.k),
+                 !.cseed[e.sub] = IF e.k \in {"enq", "recv"} /\ e.seed # 0 THEN e.seed ELSE @,
+                 !.cmeta[e.sub] = IF e.k \in {"enq", "recv"} /\ e.meta # 0 THEN e.meta ELSE @,
+                 !.cown[e.sub] = IF e.k = "enq" THEN e.own ELSE 0]
+  ELSE IF e.k \in {"en", "dis"} THEN [r EXCEPT !.sw = e.k]
+  ELSE r
+RECURSIVE ApplyFrom(_, _, _, _)
+ApplyFrom(r, app, i, pos) ==       \* pos = position in the block's event sequence of app[i]
+  IF i > Len(app) THEN r
+  ELSE ApplyFrom(IF app[i].k = "rs" THEN [r EXCEPT !.seed = pos] ELSE Apply1(r, app[i]), app, i + 1, pos + 1)
+Ref0(cs) == [cs |-> [c \in DOMAIN cs |-> "U"], cseed |-> [c \in DOMAIN cs |-> 0], cmeta |-> [c \in DOMAIN cs |-> 0],
+             cown |-> [c \in DOMAIN cs |-> 0], sw |-> "none", seed |-> 0]
+
+\* S + V: the two views after a step, given all events appended so far (K) and the reference after them (r)
+ViewOK(K, r, e) ==
+  /\ e.st.cs = r.cs /\ e.st.cseed = r.cseed /\ e.st.cmeta = r.cmeta /\ e.st.cown = r.cown
+  /\ \A c \in DOMAIN e.st.cs : e.st.bg[c] = "ok"  \* the look-up by contact-group key gives the same contact
+  /\ e.st.self = "U" /\ e.st.extra = 0            \* the account is no contact of itself; no unknown contact
+  /\ e.st.sw = r.sw /\ e.st.seed = r.seed
+  /\ e.rpc.en = (e.st.sw = "en") /\ e.rpc.seed = e.st.seed
+  /\ e.rpc.list = [i \in DOMAIN K |-> K[i].k \o ":" \o K[i].sub]
+\* the log-derived formulation (latest event per contact decides; back-fill from older requests)
+DeepOK(K, e) ==
   /\ \A c \in DOMAIN e.st.cs :
         /\ e.st.cs[c] = RefState(K, c)
         /\ e.st.cseed[c] = RefSeed(K, c) /\ e.st.cmeta[c] = RefMeta(K, c) /\ e.st.cown[c] = RefOwn(K, c)
-        /\ e.st.bg[c] = "ok"                      \* the look-up by contact-group key gives the same contact
-  /\ e.st.self = "U" /\ e.st.extra = 0            \* the account is no contact of itself; no unknown contact
   /\ \A i \in DOMAIN K : K[i].sub \in DOMAIN e.st.cs \cup {"-"}
   /\ e.st.sw = RefSw(K) /\ e.st.seed = RefAcctSeed(K)
-  /\ e.rpc.en = (e.st.sw = "en") /\ e.rpc.seed = e.st.seed
-  /\ e.rpc.list = [i \in DOMAIN K |-> K[i].k \o ":" \o K[i].sub]
 Same(e) == e.st = prev.st /\ e.rpc = prev.rpc
 
 \* L + V (replies)
@@ -110,23 +133,25 @@ OpOK ==
         /\ \A i \in DOMAIN app : app[i].k \in {"en", "rs"}
   ELSE FALSE
 
-MReset == Consume("reset") /\ kinds' = <<>> /\ prev' = <<>>
+MReset == Consume("reset") /\ kinds' = <<>> /\ prev' = <<>> /\ ref' = <<>>
 MInit == /\ Consume("init") /\ prev = <<>> /\ kinds = <<>>
-         /\ ViewOK(<<>>, Ev)
-         /\ UNCHANGED kinds /\ prev' = [st |-> Ev.st, rpc |-> Ev.rpc]
+         /\ ViewOK(<<>>, Ref0(Ev.st.cs), Ev) /\ DeepOK(<<>>, Ev)
+         /\ UNCHANGED kinds /\ ref' = Ref0(Ev.st.cs) /\ prev' = [st |-> Ev.st, rpc |-> Ev.rpc]
 MOp == /\ Consume("op") /\ prev # <<>>
-       /\ LET K == kinds \o Ev.app IN
+       /\ LET K == kinds \o Ev.app
+              r == ApplyFrom(ref, Ev.app, 1, Len(kinds) + 1) IN
             /\ Ev.grew = Len(Ev.app)
+            /\ \A i \in DOMAIN Ev.app : Ev.app[i].sub \in DOMAIN Ev.st.cs \cup {"-"}   \* no event about the account itself or a stranger
             /\ OpOK
             /\ (~Ev.ok => (Ev.grew = 0 /\ Same(Ev)))
-            /\ ViewOK(K, Ev)
-            /\ kinds' = K
+            /\ ViewOK(K, r, Ev)
+            /\ kinds' = K /\ ref' = r
        /\ prev' = [st |-> Ev.st, rpc |-> Ev.rpc]
 MRestart == /\ Consume("restart") /\ prev # <<>>
-            /\ Ev.grew = 0 /\ Same(Ev) /\ ViewOK(kinds, Ev)
-            /\ UNCHANGED kinds /\ prev' = [st |-> Ev.st, rpc |-> Ev.rpc]
+            /\ Ev.grew = 0 /\ Same(Ev) /\ ViewOK(kinds, ref, Ev) /\ DeepOK(kinds, Ev)
+            /\ UNCHANGED <<kinds, ref>> /\ prev' = [st |-> Ev.st, rpc |-> Ev.rpc]
 MNext == MReset \/ MInit \/ MOp \/ MRestart
-MInit0 == l = 1 /\ kinds = <<>> /\ prev = <<>> /\ TLCSet(42, 1)
+MInit0 == l = 1 /\ kinds = <<>> /\ ref = <<>> /\ prev = <<>> /\ TLCSet(42, 1)
 MSpec == MInit0 /\ [][MNext]_mvars
 Mark == TLCSet(42, IF l > TLCGet(42) THEN l ELSE TLCGet(42))
 Accepted == LET hw == TLCGet(42) IN
